@@ -6,7 +6,20 @@ def knobs(r, i):
     return {"ops": 30 + r.below(120), "threads": 1 + i % 2, "cycle_density": i % 2, "multi": i % 3 == 0, "unsampled": i % 4 == 0, "unwinds": i % 3 == 1, "open_at_close": i % 5 == 2}
 
 
+def queue_fills_under_open_span(n):
+    """a local span is entered while the scope's span queue has room and dropped after it has filled up (per-scope limit,
+    C09): its drop still restores the context — contexts and parents afterwards are those of the scope"""
+    p = ["0 spawn", "0 setReporter 0", "0 root r 72 1 0 1", "0 scope r", "0 localEnter 61"]
+    p += ["0 localEnter 78", "0 close"] * n
+    return p + ["0 ctxLocal", "0 lAddEvent 65 none", "0 close", "0 ctxLocal", "0 childLocal d 64", "0 ctxOf d", "0 drop d", "0 localEnter 62", "0 close",
+                "0 close", "0 ctxLocal", "0 drop r", "0 cycle", "0 stats"]
+
+
+def extra(r):
+    return [("focus/queue-fills-under-an-open-local-span", queue_fills_under_open_span(10245), ["no_panic", "contexts", "tree"])]
+
+
 def run(v, tier, seed, replay):
-    seqcheck.run(v, tier, seed, replay, "C10", ["C10"], tree_oracles=["no_panic", "contexts", "tree", "attachments"], knobs=knobs,
+    seqcheck.run(v, tier, seed, replay, "C10", ["C10"], tree_oracles=["no_panic", "contexts", "tree", "attachments"], knobs=knobs, extra_cases=extra,
                  n_quick=(2100, 450), n_thorough=(80000, 10000),
                  nontrivial=lambda lines, tr: sum(1 for l in lines if l.endswith("ctxLocal")) >= 2)
